@@ -81,9 +81,9 @@ c.ensure("single", lambda cx, result, addresses: S.forall(0, result.n, lambda j:
 c.ensure("empty", lambda cx, result, addresses: z3.Implies(addresses.n == 0, result.n == 0))
 # loop 0: the refusal scan
 c.loop(0, lambda cx, k, v: S.forall(0, k, lambda q: z3.Not(_nc(cx, v.addresses, q))), modifies=[])
-# ghost: COVIN(a) names "address a is covered by the input" (defined by the `ghost-def` precondition, a conservative definition)
+# ghost: COVIN(a) names "address a is covered by the input" (contract-local ghost definition)
 COVIN = z3.Function("covered_by_input", z3.BitVecSort(BVW), z3.BoolSort())
-c.require("ghost-def", lambda cx, addresses: z3.ForAll([_a()], COVIN(_a()) == cover_in(addresses, _a())))
+c.ghost["defs"] = [lambda cx, addresses: z3.ForAll([_a()], COVIN(_a()) == cover_in(addresses, _a()))]
 
 
 def sound_list(L):
